@@ -2,7 +2,7 @@
    Property theorems only; each is closed by an exact lemma and followed by Print Assumptions. *)
 From stdpp Require Import gmap.
 From Coq Require Import NArith String List Bool.
-From PV Require Import C01.FS C01.FSFacts C01.Model C01.Proofs C01.ProofsPdf C01.ProofsAll C01.ProofsMulti C01.Table C01.Generated C01.ProofsTable.
+From PV Require Import C01.FS C01.FSFacts C01.Model C01.Proofs C01.ProofsPdf C01.ProofsAll C01.ProofsMulti C01.ProofsAttach C01.Table C01.Generated C01.ProofsTable.
 
 (* staged_fault_safe for the api skeleton (every single-output *File function of pkg/api:
    open inputs, openStagedOutput, deferred cleanup/commit, body).
@@ -178,8 +178,54 @@ Theorem multi_fill_rows :
 Proof. exact multi_fill_rows_proof. Qed.
 Print Assumptions multi_fill_rows.
 
+(* ---------- attachment extraction: reservations released on every failure path ---------- *)
+(* A reservation that cannot be made (the open call fails without effect: ENAMETOOLONG, EIO, ... — the single
+   injected fault of the model), after k successful reservations for every k and any list of attachments with
+   pairwise distinct new marker and output names: the call returns an error and every marker reserved so far
+   has been released: the filesystem is unchanged. *)
+Theorem extract_reserve_failure_safe : forall fresh,
+  forall n k aa m0 tr rr w1 r w',
+  fresh_names m0 aa ->
+  reserve_all (single n) aa [] (W m0 0 tr) = (true, rr, w1) ->
+  extract_attachments (single n) fresh k aa (W m0 0 tr) = (r, w') ->
+  r = CErr /\ unchanged m0 (wfs w').
+Proof. exact extract_reserve_failure_safe_proof. Qed.
+Print Assumptions extract_reserve_failure_safe.
+
+(* Any failure of the extraction (one cause: no fault and any attachment's write ending in an error / a panic
+   the writer's key tolerates, or a single fault anywhere): no marker and no staging file remains; the
+   filesystem is the original one plus the first n completed attachments (documented multi-output
+   behaviour) — unless every reservation and every write succeeded and the fault hit the final release. *)
+Theorem extract_keeps_prefix_partial : forall fresh,
+  (forall m, m !! fresh m = None) ->
+  forall pl aa, att_cause pl aa ->
+  forall k m0 tr, k <> KAlways -> (forall a, In a aa -> safe_for k (a_fin a)) -> fresh_names m0 aa ->
+  forall r w', extract_attachments pl fresh k aa (W m0 0 tr) = (r, w') -> r <> COk ->
+  (exists n, extends m0 (firstn n (map a_out aa)) (wfs w')) \/
+  (exists rr w1 done w2, reserve_all pl aa [] (W m0 0 tr) = (false, rr, w1) /\
+                         fill_loop pl fresh k (map att_part aa) [] w1 = (COk, done, w2)).
+Proof. exact extract_keeps_prefix_partial_proof. Qed.
+Print Assumptions extract_keeps_prefix_partial.
+
+(* a reserving function with an error return that drops the list (`return nil, err`) leaks the markers of the
+   earlier attachments *)
+Theorem dropped_reservations_leak_refuted :
+  exists r w', extract_drop (single 1) [Att 2%positive 3%positive [] COk; Att 4%positive 5%positive [] COk] (W ∅ 0 []) = (r, w') /\
+    r = CErr /\ wfs w' !! 2%positive = Some (File [] mode_tmp).
+Proof. exact dropped_reservations_leak_refuted_proof. Qed.
+Print Assumptions dropped_reservations_leak_refuted.
+
+Theorem attachment_rows :
+  existsb (fun r => String.eqb (f_name r) "writeAttachments" && helper_eqb (f_helper r) HMultiReserve
+                    && dkey_eqb (f_key r) DReleaseAlways) table = true /\
+  (forall r, In r table -> helper_eqb (f_helper r) HMultiReserve = true -> f_key r = DReleaseAlways) /\
+  (forall r, In r table -> f_name r = "writeAttachmentToPath"%string ->
+     exists k, key_of_dkey (f_key r) = Some k /\ k <> KAlways /\ forall fin, fin <> CPanic -> safe_for k fin).
+Proof. exact attachment_rows_proof. Qed.
+Print Assumptions attachment_rows.
+
 (* all_file_functions_safe: in the table regenerated from the Go sources, every function that writes one
-   output through a staging helper and is not one of the undeferred functions pdfcpu WriteReader / CopyFile / Write and api writeMultiFillOutputWith
+   output through a staging helper and is not one of the undeferred functions pdfcpu WriteReader / CopyFile / Write and api writeMultiFillOutputWith / writeAttachmentToPath
    (panic_unsafe) keys its
    deferred decision on a completion flag; so api_staged_fault_safe* / pdf_staged_fault_safe apply to it
    with k = KFlag for every ending of the body, panic included *)
